@@ -43,6 +43,10 @@ fn (s: &InjS) injGet(k: i32) -> i32 {
 
 fn injSum(v: []i32) -> i32 {
     return len(v);
+}
+
+fn injTakeMap(m: map[str]i32) -> i32 {
+    return 1;
 }`
 
 var c03Rules = []c03Rule{
@@ -55,13 +59,27 @@ var c03Rules = []c03Rule{
 		"{\n    let ia: u16 = 1;\n    let ib: u8 = ia;\n}",
 		"{\n    let ia: i32 = 1;\n    let ib: i16 = 0;\n    ib = ia;\n}",
 		"{\n    let ia: u32 = 1;\n    let ib: i32 = ia;\n}",
-		"{\n    let ia: i64 = 1;\n    let ib: i32 = 0;\n    ib += ia;\n}"}},
+		"{\n    let ia: i64 = 1;\n    let ib: i32 = 0;\n    ib += ia;\n}",
+		// the same narrowing inside composite types: map values and keys, dynamic and fixed arrays, optionals, references, function results
+		"{\n    let ima := {\"a\" => 1} as map[str]i64;\n    let imb: map[str]i32 = ima;\n}",
+		"{\n    let ima := {1 => \"a\"} as map[i64]str;\n    let imb: map[i32]str = ima;\n}",
+		"{\n    let ima := {\"a\" => 1} as map[str]i64;\n    let iq := injTakeMap(ima);\n}",
+		"{\n    let ida: []i64 = [1, 2];\n    let idb: []i32 = ida;\n}",
+		"{\n    let ifa: [2]i64 = [1, 2];\n    let ifb: [2]i32 = ifa;\n}",
+		"{\n    let ioa: i64? = 5;\n    let iob: i32? = ioa;\n}",
+		"{\n    let ixa: i64 = 1;\n    let ira: &i64 = &ixa;\n    let irb: &i32 = ira;\n}",
+		"{\n    let ifn := fn() -> i64 {\n        return 1;\n    };\n    let ifm: fn() -> i32 = ifn;\n}",
+		"{\n    let ima := {\"a\" => 1} as map[str]u32;\n    let imb: map[str]i32 = ima;\n}"}},
 	{name: "float-to-int-implicit", stmt: []string{
 		"{\n    let fa: f64 = 1.5;\n    let ib: i32 = fa;\n}",
 		"{\n    let ib: i32 = 2.5;\n}",
 		"{\n    let fa: f32 = 1.5;\n    let ib: i64 = 0;\n    ib = fa;\n}",
 		"{\n    let iq: i32 = 1;\n    iq += 1.5;\n}",
-		"{\n    let iq: i32 = 1;\n    let fa: f64 = 2.0;\n    iq *= fa;\n}"}},
+		"{\n    let iq: i32 = 1;\n    let fa: f64 = 2.0;\n    iq *= fa;\n}",
+		"{\n    let ima := {\"a\" => 1.5} as map[str]f64;\n    let imb: map[str]i32 = ima;\n}",
+		"{\n    let ima := {\"a\" => 1.5} as map[str]f64;\n    let iq := injTakeMap(ima);\n}",
+		"{\n    let ida: []f64 = [1.5];\n    let idb: []i32 = ida;\n}",
+		"{\n    let ioa: f32? = 1.5;\n    let iob: i64? = ioa;\n}"}},
 	{name: "non-bool-condition", stmt: []string{
 		"{\n    let ia: i32 = 1;\n    if ia {\n        let iz: i32 = 0;\n    }\n}",
 		"{\n    let ia: i32 = 1;\n    while ia {\n        break;\n    }\n}",
